@@ -574,14 +574,14 @@ class CursorSpec:
         try:
             self._level(spec.m['level'], {'vb': 0, 'msg': True, 'bl': 0})
         except Beyond:
-            # the traversal runs off the image at the member after the last recorded one
-            self.members.append({'kind': 'beyond-image', 'pre': INF, 'needs': {v: INF for v in CVARS}, 'view': 0,
-                                 'nviews': len(self.views)})
+            # the traversal runs off the image behind the last recorded member: later members are not enumerated
+            pass
         self.huge = spec.cur.huge
+        self.cviews = spec.cur.views
 
     def _add(self, kind, needs, view):
         self.members.append({'kind': kind, 'pre': self.pending, 'needs': needs, 'view': view,
-                             'nviews': len(self.views)})
+                             'nviews': len(self.views), 'ncviews': len(self.s.cur.views)})
         self.pending = 0
 
     def _lv_end(self, view):
@@ -599,6 +599,8 @@ class CursorSpec:
             nd = view['vb'] + f['abs'] + (0 if f['is_view'] else f['size'])
             kind = 'cursor.field.' + ('view' if f['is_view'] else 'scalar') + ('.last' if f['last'] else '')
             self._add(kind, {v: nd for v in CVARS}, view['vb'])
+            # the cursor behind the field is the base pointer of the next accessor's check
+            self.views.append(view['vb'] + f['abs'] + f['size'])
         if not level['groups'] and not level['datas']:
             return
         p, lvneed = self._lv_end(view)
@@ -652,7 +654,8 @@ class CursorSpec:
             first = False
 
     def past_end(self, k, n):
-        return any(p > n for p in self.views[:self.members[k]['nviews']])
+        return any(p > n for p in self.views[:self.members[k]['nviews']]) or \
+            any(p > n for p in self.cviews[:self.members[k]['ncviews']])
 
     def runs(self):
         """[(k, var, needs_end, kind)] in the driver's order"""
